@@ -218,16 +218,21 @@ impl Workload for InSitu {
     }
     fn describe(&mut self, idx: u64) -> String { case_json(&self.pick(idx)) }
     fn run(&mut self, idx: u64) -> Outcome {
-        let c = self.pick(idx);
+        let mut c = self.pick(idx);
+        // C09: the same corpus made rich in `$_` (every singleton variable of a clause written as `$_`)
+        if self.which == Prop::C09 && idx % 4 != 0 { c = anonymize_singletons(&c); }
         let mut out = Outcome::new(hash_str(&format!("insitu {}", c.text())));
         out.sample = case_json(&c);
         out.evals = 0;
         // terminating cases only (screened by the reference; its verdict on answers is C01's business)
-        if let Err(e) = rinterp::solve_mode(&c.prog, &c.qname, &c.qargs, 20_000, MAX_ANSWERS, true) {
-            if e.starts_with("budget") { out.verdict = Verdict::Skipped("reference budget exceeded"); return out; }
-            // out-of-domain programs may panic inside arithmetic etc.: not this property's subject
-            out.verdict = Verdict::Skipped("outside the statements' domain"); return out;
-        }
+        let refr = match rinterp::solve(&c.prog, &c.qname, &c.qargs, 20_000, MAX_ANSWERS) {
+            Ok(r) => r,
+            Err(e) => {
+                if e.starts_with("budget") { out.verdict = Verdict::Skipped("reference budget exceeded"); return out; }
+                // out-of-domain programs may panic inside arithmetic etc.: not this property's subject
+                out.verdict = Verdict::Skipped("outside the statements' domain"); return out;
+            }
+        };
         let kb = program_to_kb(&c.prog);
         install(self.which);
         let eng = run_engine(&c, &kb, MAX_ANSWERS, 0);
@@ -248,7 +253,20 @@ impl Workload for InSitu {
             return out;
         }
         if eng.panic.is_some() { out.count("engine_panics_left_to_C01", 1); }
-        if st.checked == 0 { out.verdict = Verdict::Skipped("no checkable event in this run"); }
+        // C09 at program level: with `$_` in heads, goals, list elements, tails and nested terms the
+        // answers must be those of the reference, in which `$_` matches anything and never binds
+        else if self.which == Prop::C09 && c.prog.clauses.iter().any(|cl| cl.args.iter().any(|t| t.has_anon()) || cl.body.as_ref().map_or(false, |b| b.terms().iter().any(|t| t.has_anon()))) {
+            out.evals += 1;
+            match compare(&refr, &eng, false) {
+                Ok(()) => out.count("anon_programs_answers_equal_reference", 1),
+                Err(d) => {
+                    out.violate(format!("insitu-anon-program|{}", c.text()), json::obj(&[("kind", json::esc("a program with `$_` gives answers that differ from the reference")),
+                        ("program", json::strs(&c.prog.clauses.iter().map(show_clause).collect::<Vec<_>>())), ("query", json::esc(&format!("{}({})", c.qname, show_args(&c.qargs)))), ("detail", json::esc(&d))]));
+                    return out;
+                }
+            }
+        }
+        if st.checked == 0 && out.evals == 0 { out.verdict = Verdict::Skipped("no checkable event in this run"); }
         out
     }
 }
